@@ -171,6 +171,12 @@ pub fn run(args: &Args) {
         let cs: Vec<Value> = std::fs::read_to_string(cases).unwrap().lines().filter(|l| !l.trim().is_empty()).map(|l| serde_json::from_str(l).unwrap()).collect();
         run_cases(&mut t, "gen", &cs, true);
     }
+    // (a1) the typed and raw headers generated for C01 / C05 / C16 (every accessor tag x data type x count, tag triples
+    // with members missing, locale tables, dribbles ...): every read-side operation must return on them as well
+    if let Some(cases) = args.get("hdr-cases") {
+        let cs: Vec<Value> = std::fs::read_to_string(cases).unwrap().lines().filter(|l| !l.trim().is_empty()).map(|l| serde_json::from_str(l).unwrap()).collect();
+        run_cases(&mut t, "hdr", &cs, false);
+    }
     // (a2) the digest decision table of C03 (every combination of recorded digests present / absent / wrongly typed /
     // empty / wrong), materialised on a carrier package: verification must return on each of them
     if let Some(cases) = args.get("digest-cases") {
@@ -229,6 +235,23 @@ pub fn run(args: &Args) {
         cs.push(hexcase(&m, d));
     }
     run_cases(&mut t, "mutants", &cs, false);
+    // (c2) a "crc" (070702) archive entry whose data bytes add up to more than 2^32 (the checksum is defined modulo 2^32)
+    {
+        let big = vec![0xFFu8; 16_900_000];
+        let sum: u64 = big.iter().map(|&b| b as u64).sum();
+        let mut arch = c07::newc_entry("./opt/a", 0o100644, &big, 1);
+        arch[..6].copy_from_slice(b"070702");
+        let chk = format!("{:08x}", (sum & 0xFFFF_FFFF) as u32);
+        arch[6 + 8 * 12..6 + 8 * 13].copy_from_slice(chk.as_bytes());
+        arch.extend_from_slice(&c07::newc_entry("TRAILER!!!", 0, &[], 0));
+        let h: Vec<(u32, u32, Value)> = vec![(1000, T_STRING, json!(["x".as_bytes()])), (1004, T_I18N, json!(["s".as_bytes()])),
+            (1117, T_STRARR, json!(["a".as_bytes()])), (1118, T_STRARR, json!(["/opt/".as_bytes()])), (1116, T_INT32, json!([0])),
+            (1030, T_INT16, json!([0o100644])), (1028, T_INT32, json!([16_900_000u32])),
+            (1039, T_STRARR, json!(["root".as_bytes()])), (1040, T_STRARR, json!(["root".as_bytes()])),
+            (1035, T_STRARR, json!(["".as_bytes()])), (1034, T_INT32, json!([0u32])), (1037, T_INT32, json!([0u32])), (1036, T_STRARR, json!(["".as_bytes()]))];
+        let bytes = rawhdr::assemble(&lead_bytes("crc"), &encode_wellformed(62, &[]), &encode_wellformed(63, &h), &arch, 0);
+        run_cases(&mut t, "big-crc-entry", &[hexcase(&bytes, "070702 entry, 16.9 MB of 0xff".into())], false);
+    }
     // (d) hostile uncompressed cpio payloads
     let mut cs = vec![];
     let good = c07::newc_entry("./opt/a", 0o100644, b"hello", 1);
